@@ -71,6 +71,8 @@ type LockOp struct {
 	Instr   ssa.Instruction
 }
 
+func IsMutexType(t types.Type) bool { return isMutexType(t) }
+
 func isMutexType(t types.Type) bool {
 	for {
 		if p, ok := t.(*types.Pointer); ok {
